@@ -1,11 +1,89 @@
 (** * C07 - any input yields a recipe or a documented, located error - never a crash.
-    Property theorems only; the model is Model/Parser.v ([compile_src]), proofs are in Proofs/Parser*.v. *)
-From Coq Require Import List ZArith NArith Bool String.
-From RG Require Import Base.Str Base.Num Model.Recipe Model.Compiler Model.Parser.
+    Property theorems only.  Model: [Parser.compile_src] (Model/Parser.v) =
+    [recipe_grid.compiler.compile]: parse every block with the grammar interpreter, then
+    [Compiler.compile_ast] over the generated unit table; every partial Python operation is an explicit
+    crash outcome ([SrcParseCrash] for the number literals of parser/ast.py, [SrcCompileCrash] for
+    compiler.py).  Positions: Model/LineCol.v ([line_col] = peggie's offset_to_line_and_column,
+    [extract_line]), shared with C19. *)
+From Coq Require Import List ZArith NArith Bool String Arith.
+From RG Require Import Base.Str Base.Num Model.Recipe Model.Compiler Model.Parser Model.Printer Model.LineCol
+  Proofs.LineCol Proofs.ParserFuel Proofs.ParserC07.
 Import ListNotations.
 Open Scope string_scope.
+Open Scope list_scope.
 
 Example C07_smoke :
   compile_src [s "x = 1 a"; s "x = 2 b"] = SrcErr NameRedefined 1 0%N.
 Proof. vm_compute. reflexivity. Qed.
-Print Assumptions C07_smoke.
+
+(** ** No crash
+
+    Full statement (the target; FALSE today, see [C07_overflow_refuted]):
+
+      forall srcs, match compile_src srcs with SrcParseCrash _ _ | SrcCompileCrash _ => False | _ => True end
+
+    Not proved in the restricted form either ("no numeric literal of 309 or more digits implies no
+    [SrcParseCrash]"): it needs an invariant of every parser function (the literal-evaluation flag is only
+    ever set by [sc_number] on a suffix of the input) plus a bound on [Num.b64]; the flag is threaded so
+    that the statement is expressible, and the correspondence suite [outcome] searches it (quick: 3 k,
+    thorough: 60 k inputs incl. 15..4301-digit literals).  [SrcCompileCrash] (list.remove, the final
+    Recipe check, OverflowError in Quantity.has_equal_value_to) belongs to Model/Compiler.v and is treated
+    with C01/C05. *)
+
+(** The full statement is refuted by the faithful model: a 309-digit integer literal makes
+    [int(float(s))] raise OverflowError (ast.py, decimal), a fraction part of 4301 digits makes [int(s)]
+    raise ValueError (interpreter limit) - while 308 digits are fine.  Replayed on the implementation:
+    known finding F2. *)
+Theorem C07_overflow_refuted :
+  (exists srcs, compile_src srcs = SrcParseCrash 0 IntOfInf) /\
+  (exists srcs, compile_src srcs = SrcParseCrash 0 IntStrLimit).
+Proof. split; [exists [nines_309]; exact overflow_witness | exists [ones_4301_frac]; exact strlimit_witness]. Qed.
+Print Assumptions C07_overflow_refuted.
+
+Example C07_308_digits_fine : exists bs, compile_src [repeat 57%N 308 ++ s " x"] = SrcOk bs.
+Proof. exact nines_308_ok. Qed.
+
+(** ** Errors are located
+
+    Every position computed by offset_to_line_and_column / extract_line - for ANY text and ANY offset,
+    also beyond the end (peggie's ParseError uses the furthest failure offset, compile errors the offset of
+    an AST node) - names an existing line, a column within that line (its terminator included) or one past
+    it, and the snippet is that line without its terminator.  (Proved once, for C19.) *)
+Theorem C07_position_wellformed : forall s off,
+  let lc := line_col s off in
+  (1 <= fst lc <= Nat.max 1 (List.length (splitlines_keepends s)))%nat /\
+  (1 <= snd lc <= List.length (nth (fst lc - 1) (splitlines_keepends s) []) + 1)%nat /\
+  exists snip t,
+    extract_line s (fst lc) = Some snip /\
+    nth (fst lc - 1) (splitlines_keepends s) [] = snip ++ t /\
+    is_term t /\ nobreak snip = true.
+Proof. exact line_col_wellformed. Qed.
+Print Assumptions C07_position_wellformed.
+
+(** A compile error of [compile_ast] is [NameRedefined] at the offset the AST records for one of that
+    statement's explicit output names, or [ProportionGiven] at [Reference.offset] of a reference that
+    carries a proportion (= the offset of the amount) - in the block the error names; for any unit
+    table. *)
+Theorem C07_error_points_at_token : forall lower convert tol p k b o,
+  compile_ast convert tol lower p = CErr k b o ->
+  exists sts st, nth_error p b = Some sts /\ In st sts /\
+    ((k = NameRedefined /\ exists nm, In (nm, o) (st_outs st)) \/
+     (k = ProportionGiven /\ ref_at o (st_expr st))).
+Proof. exact error_points_at_token. Qed.
+Print Assumptions C07_error_points_at_token.
+
+(** The same for source texts: the offset is one the PARSER attached to that output name / amount of that
+    block's text.  With [C06_roundtrip_quoted_partial] those are the offsets at which the text carries the
+    name's first part / the amount ([name_off], start of the reference). *)
+Theorem C07_src_error_points_at_token : forall srcs k b o,
+  compile_src srcs = SrcErr k b o ->
+  exists src stmts st, nth_error srcs b = Some src /\ parse src = POk stmts /\ In st stmts /\
+    ((k = NameRedefined /\ exists nm, In (nm, o) (st_outs st)) \/
+     (k = ProportionGiven /\ ref_at o (st_expr st))).
+Proof. exact src_error_points_at_token. Qed.
+Print Assumptions C07_src_error_points_at_token.
+
+Example C07_error_points_ex :
+  compile_src [s "'a' = 'x'" ++ [10%N] ++ s "'b', 'A ' = 'q'"] = SrcErr NameRedefined 0 15%N /\
+  compile_src [s "'a' = 'x'" ++ [10%N] ++ s "'f'('y', 50 % 'q')"] = SrcErr ProportionGiven 0 19%N.
+Proof. vm_compute. split; reflexivity. Qed.
